@@ -225,4 +225,33 @@ example : applyWrites 16 0xFFFF [wA, wB, wC] = applyWrites 16 0xFFFF [wC, wA, wB
 example : applyWrites 8 0 [⟨[⟨0, 4⟩], 0, 5⟩, ⟨[⟨2, 4⟩], 0, 3⟩] ≠ applyWrites 8 0 [⟨[⟨2, 4⟩], 0, 3⟩, ⟨[⟨0, 4⟩], 0, 5⟩] := by decide
 
 
+/-- which positions a write covers depends on the ranges and the element offset only, not on the value -/
+theorem written_isSome_indep (v w off : Nat) : ∀ (rs : List Rng) (t t' p : Nat),
+    (written v off rs t p).isSome = (written w off rs t' p).isSome := by
+  intro rs
+  induction rs with
+  | nil => intro t t' p; rfl
+  | cons r rest ih =>
+    intro t t' p
+    simp only [written]
+    by_cases hc : r.covers off p = true
+    · simp [hc]
+    · simp [hc, ih (t + r.len) (t' + r.len) p]
+
+/-- **the second write to the same field (same element) wins entirely**: nothing of the first value survives, also for
+    lists and for lists naming a bit twice -/
+theorem rewrite_same_field (W init : Nat) (rs : List Rng) (off v w : Nat) (hinit : init < 2 ^ W) :
+    applyWrites W init [⟨rs, off, v⟩, ⟨rs, off, w⟩] = applyWrites W init [⟨rs, off, w⟩] :=
+  overwrite W init ⟨rs, off, v⟩ ⟨rs, off, w⟩ hinit (fun p h => by rw [← written_isSome_indep v w off rs 0 0 p]; exact h)
+
+/-- the same for the generated setters: two legal calls on the same field and element, then any state is the state after
+    the second call alone (either profile) -/
+theorem second_write_wins (Γ : CustomEnv) (chk : Bool) (B : Base) (hB : B.WF) (s₁ s₂ : Step) (init t t' : Nat)
+    (hinit : init < 2 ^ B.internal) (h₁ : s₁.Ok Γ B) (h₂ : s₂.Ok Γ B) (hfd : s₁.fd = s₂.fd) (hi : s₁.i = s₂.i)
+    (hrun : Runs Γ chk B init [s₁, s₂] t) (hrun' : Runs Γ chk B init [s₂] t') : t = t' := by
+  rw [runs_unique Γ chk B hB [s₁, s₂] init t hinit (by intro st hst; simp at hst; rcases hst with rfl | rfl <;> assumption) hrun,
+    runs_unique Γ chk B hB [s₂] init t' hinit (by intro st hst; simp at hst; subst hst; assumption) hrun']
+  simp only [List.map_cons, List.map_nil, Step.toOp, hfd, hi]
+  exact rewrite_same_field _ _ _ _ _ _ hinit
+
 end Bb.C12
